@@ -175,3 +175,18 @@ Definition attempt_tab (sp : src_spec) (B : mat Z) (g : mat Z -> nat -> nat -> n
       else Some (mkst R (fst ij1) (snd ij1), s2, None)
     end
   end.
+
+(* ---------- randomizer_bin_und: the cell writes of its swap (constants 0 / 1), in source order ---------- *)
+Definition cwrite := (scell * Z)%type.
+Definition cwrite_eqb (w1 w2 : cwrite) : bool := (scell_eqb (fst w1) (fst w2) && Z.eqb (snd w1) (snd w2))%bool.
+Definition exec_cwrite (r : env) (R : mat Z) (w : cwrite) : mat Z := upd R (r (fst (fst w))) (r (snd (fst w))) (snd w).
+Definition exec_cwrites (r : env) (ws : list cwrite) (R : mat Z) : mat Z := fold_left (exec_cwrite r) ws R.
+Definition rbu_writes_std : list cwrite :=
+  [((SA, SB), 0); ((SC, SD), 0); ((SB, SA), 0); ((SD, SC), 0); ((SA, SC), 1); ((SB, SD), 1); ((SC, SA), 1); ((SD, SB), 1)].
+(* the mate must be an edge between two common non-neighbours of a and b:
+   np.where(R[:, a] == 0), np.where(R[:, b] == 0), np.where(R[np.ix_(h, h)] == 1) — the three cell tests, as (column symbol, value) *)
+Definition rbu_tests_std : list (sym * Z) := [(SA, 0); (SB, 0)].
+Definition rbu_mate_std : Z := 1.
+Definition stest_eqb (p q : sym * Z) : bool := (sym_eqb (fst p) (fst q) && Z.eqb (snd p) (snd q))%bool.
+Definition eval_tests (r : env) (R : mat Z) (x : nat) (l : list (sym * Z)) : bool :=
+  forallb (fun t => Z.eqb (R x (r (fst t))) (snd t)) l.
